@@ -2,14 +2,16 @@
 // against the Lean index model (lean/ElaVerif/Model/Index.lean).
 //
 // ops (stateful; a history starts at `reset`):
-//   reset                     fresh node-in-a-process (regnet), genesis indexed by chain.Init
-//   init <genesis block>      the model indexes the genesis block (Go checks the description)
-//   save  <block>             real ChainStore.SaveBlock          → ok | err | panic
-//   savex <block>             same, block built invalid on purpose (not judged by the oracle)
-//   rollback <block>          real ChainStore.RollbackBlock      → ok | err | panic
-//   obs <q>*                  u<txid> GetUnspent (stored order), a<addr> GetUTXO (returned order),
-//                             t<txid> GetTransaction, x<h> IsTx3Exist, r<h> IsSideChainReturnDepositExist,
-//                             d<h> GetProposalDraftDataByDraftHash
+//
+//	reset                     fresh node-in-a-process (regnet), genesis indexed by chain.Init
+//	init <genesis block>      the model indexes the genesis block (Go checks the description)
+//	save  <block>             real ChainStore.SaveBlock          → ok | err | panic
+//	savex <block>             same, block built invalid on purpose (not judged by the oracle)
+//	rollback <block>          real ChainStore.RollbackBlock      → ok | err | panic
+//	obs <q>*                  u<txid> GetUnspent (stored order), a<addr> GetUTXO (returned order),
+//	                          t<txid> GetTransaction, x<h> IsTx3Exist, r<h> IsSideChainReturnDepositExist,
+//	                          d<h> GetProposalDraftDataByDraftHash
+//
 // <block> is the complete specification regnet.Describe prints; Exec rebuilds the real block from it.
 package main
 
